@@ -14,9 +14,148 @@ PROFILE = {
 }
 
 
+def _canon_line(d):
+    drop = ("session_id",)
+    out = []
+    for k, v in sorted(d.items()):
+        if k in drop:
+            continue
+        if k in ("vehicle_memberships", "fleet_id", "memberships") and isinstance(v, str):
+            v = "".join(sorted(v))  # printed set: member order is free
+        out.append((k, str(v)))
+    return tuple(out)
+
+
+def _read_log(path):
+    import json
+
+    recs, bad = [], 0
+    for line in open(path):
+        line = line.strip()
+        if not line:
+            continue
+        try:
+            recs.append(json.loads(line))
+        except Exception:
+            bad += 1
+    return recs, bad
+
+
+def run_split(case):
+    """the same scenario advanced one step per crank call and in calls of several steps: the written logs must hold the same
+    records, and the second log is checked offline for one station load record per station and step that equals that
+    step's charge records there."""
+    import collections
+
+    import nrel.hive.app.hive_cosim as hc
+    from hivemon.common import quiet_stdout, silence_logging
+    from hivemon.drive.tracer import Ctx, cleanup, load_case
+    from nrel.hive.reporting.handler.eventful_handler import EventfulHandler
+
+    silence_logging()
+    logs = []
+    ctxs = []
+    steps = int(case["steps"])
+    plans = [[1] * steps, list(case["sizes"])]
+    n_stations = 0
+    try:
+        for plan in plans:
+            ctx = Ctx({k: v for k, v in case.items() if k not in ("engine", "sizes")})
+            ctxs.append(ctx)
+            rp = load_case(ctx)
+            n_stations = len(rp.s.stations)
+            ev = next(h for h in rp.e.reporter.handlers if isinstance(h, EventfulHandler))
+            path = ev.log_file.name
+            done = 0
+            for n in plan:
+                n = min(n, steps - done)
+                if n <= 0:
+                    break
+                with quiet_stdout():
+                    rp = hc.crank(rp, n).runner_payload
+                done += n
+                ctx.count("c19_split_cranks_of_several_steps" if n > 1 else "c19_split_single_step_cranks")
+            ctx.rp = rp
+            ev.log_file.flush()
+            recs, bad = _read_log(path)
+            if bad:
+                ctx.violate("C19", "unparsable-line", f"{bad} lines of event.log are not JSON")
+            logs.append(recs)
+            station_ids = sorted(rp.s.stations.keys())
+            cleanup(ctx)
+        ctx = ctxs[-1]
+        a = collections.Counter((d.get("report_type"), _canon_line(d)) for d in logs[0])
+        b = collections.Counter((d.get("report_type"), _canon_line(d)) for d in logs[1])
+        ctx.count("c19_split_records_compared", sum(a.values()))
+        if a != b:
+            only_a, only_b = a - b, b - a
+            kinds = sorted({k[0] for k in only_a} | {k[0] for k in only_b})
+            ex = next(iter(only_a or only_b))
+            ctx.violate("C19", "log-differs-when-several-steps-per-call", f"log of {sum(a.values())} records (one step per call) vs {sum(b.values())} records (calls of {case['sizes'][:6]} steps): {sum(only_a.values())} records only in the first, {sum(only_b.values())} only in the second; kinds {kinds}; e.g. {dict(ex[1]).get('report_type')} {dict(list(ex[1])[:6])}", kinds=kinds)
+        # offline: per station and step. Vehicle records of the step that starts at t carry the window [t - dt, t] (they are
+        # written before the clock ticks), station load records carry [t, t + dt] (written after it): the pairing is by
+        # "charge window end == load window start"; should the two conventions ever be unified the pairing by equal
+        # windows is accepted as well - a violation is a mismatch under both pairings
+        load = collections.defaultdict(list)
+        chg = {0: collections.Counter(), 1: collections.Counter()}
+        for d in logs[1]:
+            if d.get("report_type") == "station_load_event":
+                load[(d["station_id"], d["sim_time_start"])].append(float(d["energy"]))
+            elif d.get("report_type") == "vehicle_charge_event":
+                chg[0][(d["station_id"], d["sim_time_start"])] += float(d["energy"])
+                chg[1][(d["station_id"], d["sim_time_end"])] += float(d["energy"])
+                ctx.count("c19_split_charge_records")
+        for key, xs in load.items():
+            ctx.count("c19_split_station_load_records")
+            if len(xs) > 1:
+                ctx.violate("C19", "duplicate-station-load", f"{len(xs)} station load records for {key}")
+        bad = {}
+        for al in (0, 1):
+            bad[al] = [(key, load[key][0], chg[al].get(key, 0.0)) for key in load if abs(load[key][0] - chg[al].get(key, 0.0)) > 1e-9 * max(1.0, abs(load[key][0]))]
+            bad[al] += [(key, None, x) for key, x in chg[al].items() if key not in load and x != 0.0]
+        if bad[0] and bad[1]:
+            key, l, c = bad[1][0]
+            ctx.violate("C19", "station-load-differs-from-charge-events" if l is not None else "missing-station-load", f"station {key[0]}, load window starting {key[1]}: load record {l}, charge records of that step there sum to {c} ({len(bad[1])} such station-steps)", station=key[0])
+        if len(load) != n_stations * steps:
+            ctx.violate("C19", "missing-station-load", f"{len(load)} station load records for {n_stations} stations over {steps} steps")
+    except Exception as e:
+        import traceback
+
+        frames = traceback.extract_tb(e.__traceback__)
+        if not ctxs or not any("/nrel/hive/" in f.filename for f in frames) or "/hivemon/checks/" in frames[-1].filename:
+            raise
+        where = next((f"{f.filename.split('/')[-1]}:{f.name}" for f in reversed(frames) if "/nrel/hive/" in f.filename), "?")
+        ctxs[-1].violate("C19", f"exception:{type(e).__name__}@{where}", f"{type(e).__name__}: {e}", traceback=traceback.format_exc()[-2000:])
+    finally:
+        for c in ctxs:
+            cleanup(c)
+    ctx = ctxs[-1]
+    tot = collections.Counter()
+    for c in ctxs:
+        tot.update(c.counters)
+    return {"id": case["id"], "engine": "c19_split", "violations": [v for c in ctxs for v in c.violations], "counters": dict(tot), "sets": {}, "hook_calls": {}, "summary": {}}
+
+
 def build_cases(tier, seed):
+    import random
+
     n, steps = (72, 220) if tier == "quick" else (1400, 500)
     cases = []
+    # several steps per co-simulation call (as examples/cosim_custom_dispatcher.py does) against one step per call
+    for i in range(12 if tier == "quick" else 200):
+        s = seed * 100000 + 19500 + i
+        rnd = random.Random(s)
+        st = 90 if tier == "quick" else 200
+        sizes = []
+        while sum(sizes) < st:
+            sizes.append(rnd.choice([1, 2, 3, 5, 10, 17]))
+        prof = dict(PROFILE)
+        prof["network"] = "euclidean"
+        c = trace_case("C19", i, s, prof, BUILTIN, st, [], tag="split")
+        c["engine"] = "c19_split"
+        c["sizes"] = sizes
+        c["opts"] = {"record_generators": False}
+        cases.append(c)
     for i in range(n):
         s = seed * 100000 + 19000 + i
         prof = dict(PROFILE)
@@ -34,11 +173,11 @@ main = simple_main(
     build_cases,
     "c19_pickups",
     {
-        "quick": {"c19_lines": 100000, "c19_moves": 10000, "c19_charges": 8000, "c19_pickups": 500, "c19_dropoffs": 500, "c19_cancels": 1000, "c19_station_load_checks": 50000},
-        "thorough": {"c19_lines": 2000000, "c19_moves": 200000, "c19_charges": 150000, "c19_pickups": 8000, "c19_dropoffs": 8000, "c19_cancels": 20000, "c19_station_load_checks": 1000000},
+        "quick": {"c19_lines": 100000, "c19_moves": 10000, "c19_charges": 8000, "c19_pickups": 500, "c19_dropoffs": 500, "c19_cancels": 1000, "c19_station_load_checks": 50000, "c19_split_cranks_of_several_steps": 100, "c19_split_records_compared": 5000, "c19_split_charge_records": 500},
+        "thorough": {"c19_lines": 2000000, "c19_moves": 200000, "c19_charges": 150000, "c19_pickups": 8000, "c19_dropoffs": 8000, "c19_cancels": 20000, "c19_station_load_checks": 1000000, "c19_split_cranks_of_several_steps": 2000, "c19_split_records_compared": 100000, "c19_split_charge_records": 10000},
     },
     "whole runs through the real EventfulHandler and StatsHandler (file-writing, unmodified); event.log is parsed back line by line, lines are grouped per step by the file offset noted after each crank(1); "
     "sums (move distances vs odometer, charge energies vs gained), per-step station load vs charge events, StatsHandler counters vs add/cancel lines, one-to-one matching of state changes (request left, energy rose, odometer rose, trip ended) "
-    "with lines, waiting time within [0, timeout + dt] incl. runs crossing midnight. non-trivial = at least one pickup line; distinct = case hash",
+    "with lines, waiting time within [0, timeout + dt] incl. runs crossing midnight. A second engine advances the same scenario one step per call and in calls of 1-17 steps (hive_cosim.crank(rp, n)): both written logs must hold the same multiset of records, and the batched log must hold one station load record per station and step equal to that step's charge records. non-trivial = at least one pickup line; distinct = case hash",
     ["the summary file only carries the ratio of the counters; the counters themselves are read from the registered StatsHandler"],
 )
